@@ -539,6 +539,8 @@ func (p *Printer) rightParen(pos Pos) {
 	}
 	p.w.WriteByte(')')
 	p.wantSpace = spaceRequired
+	// Like in semiRsrv, any separator written before the parenthesis is used up.
+	p.wroteSemi = false
 }
 
 // closingParen prints a closing parenthesis at closePos, separating it from a
@@ -1639,12 +1641,15 @@ func (e *extraIndenter) WriteByte(b byte) error {
 		// indentation that the first line had, for consistency.
 		lineIndent += e.firstChange
 	}
+	// Escape the entire line, not just its indentation, as the text may
+	// contain more tabs or other bytes which text/tabwriter interprets.
 	e.bufWriter.WriteByte(tabwriter.Escape)
 	for range lineIndent {
 		e.bufWriter.WriteByte('\t')
 	}
+	e.bufWriter.Write(trimmed[:len(trimmed)-1])
 	e.bufWriter.WriteByte(tabwriter.Escape)
-	e.bufWriter.Write(trimmed)
+	e.bufWriter.WriteByte('\n')
 	e.curLine = e.curLine[:0]
 	return nil
 }
